@@ -38,6 +38,11 @@ def make_generator(name, prog, acl_text, vendor):
                 cm = self.block_if(*o["row"], condition=o["cond"])
                 cm.__enter__()
                 frames.append(cm)
+            elif op == "enterdef":          # block_if without an explicit condition; tokens of every kind a generator passes
+                toks = [{"w": w, "int": int(w) if kd == "int" else w, "none": None, "empty": ""}[kd] for w, kd in zip(o["row"], o["kinds"])]
+                cm = self.block_if(*toks)
+                cm.__enter__()
+                frames.append(cm)
             elif op == "menter":
                 cm = self.multiblock(*[tuple(r) for r in o["rows"]])
                 cm.__enter__()
